@@ -89,10 +89,35 @@ def coerce(kind, raw):
 DOCUMENTED_ENV_PREFIX = {'s3': 'S3', 's3c': 'S3C', 'b2': 'B2', 'vfy': 'VFY', 'vfa': 'VFA', 'local': 'LOCAL'}
 
 
-def register_backend(module, short_name):
+# further names a backend class declares ITSELF (a plain `short_name` class attribute): not documented, but the class's own —
+# an implementation that honours it reads the class's own variable all the same
+OWN_ALT_ENV_PREFIX = {}
+
+
+def documented_short_name(decl):
+    """decl = {'name': class name, 'kw': `short_name=` class keyword or None, 'attr': plain class attribute or None} of the
+    class the user names — and of that class ONLY: what its base classes are called is irrelevant.  README ("Custom
+    backends"): the class keyword when given, else the class name (`PROUDCLOUD_ACCOUNT_ID`)."""
+    return decl['kw'] if decl.get('kw') is not None else decl['name']
+
+
+def own_alternative_names(decl):
+    if decl.get('kw') is None and decl.get('attr') is not None and decl['attr'] != decl['name']:
+        return [decl['attr']]
+    return []
+
+
+def register_backend(module, short_name, alt=()):
     """a further custom backend (module name = what `-r <module>:…` names; short name = what its class declares, the class
     name when it declares none): README "<SHORT NAME>_<OPTION>" in upper case"""
     DOCUMENTED_ENV_PREFIX[module] = short_name.upper()
+    if alt:
+        OWN_ALT_ENV_PREFIX[module] = [a.upper() for a in alt]
+
+
+def alt_env_names(owner, dest):
+    """further variables that are the class's own (see OWN_ALT_ENV_PREFIX); the harness sets them to the same text"""
+    return [f'{p}_{dest}'.upper() for p in OWN_ALT_ENV_PREFIX.get(owner, [])]
 
 
 DOCUMENTED_MAIN_ENV = {'repository': 'REPLICAT_REPOSITORY', 'password': 'REPLICAT_PASSWORD'}
